@@ -41,6 +41,7 @@ META = dict(
 CLAUSES = {"committed_was_marked", "store_backwards_only_after_reset", "mark_never_lowers", "reset_never_raises",
            "next_offset_is_pending_or_initial", "mark_during_flight_is_recommitted", "pending_mark_is_sent_by_next_commit",
            "closed_and_accepted_implies_store_equals_last_mark"}
+SHUTDOWN_CLAUSES = {"close_hang", "close_panic", "errors_closed_after_close"}
 ONLY = ["offsetmgr*"]
 
 
@@ -142,7 +143,8 @@ def run(ctx):
         raise vlib.Inconclusive("trace validation evaluated %d executions, harness recorded %d" % (stats.get("traces", 0), ncases + nticks))
     harness_bad = [v for v in allv if v["clause"] not in CLAUSES]
     if harness_bad:
-        raise vlib.Inconclusive("simulated coordinator inconsistent with its own log: %s" % harness_bad[:3])
+        raise vlib.Inconclusive("a panic of the code under test (C12's clause, not a C06 verdict) or a simulated coordinator "
+                                "inconsistent with its own log: %s" % harness_bad[:3])
     viols = []
     if allv:
         events = {}
@@ -195,3 +197,102 @@ def run(ctx):
                         "model bounds: 2 partitions, offsets 0..2, 2 metadata values, 3 calls, <=2 commits + final attempts, 1 fault (exhaustive); "
                         "3 partitions, offsets 0..4, 8-10 calls, 4 commits, 5 faults (simulation)"],
                        save={"trace.ndjson": trace, "cases.ndjson": cases})
+
+
+# ---------------------------------------------------------------------- shutdown family (used by checks/c12.py)
+def shutdown_scenarios():
+    """deterministic corpus: Close/AsyncClose of the partition offset managers and Close of the offset manager
+    idle, mid-request, while every commit is answered with a retriable error, while the coordinator is unreachable or
+    silent, with marks racing with Close, twice; auto-commit on and off"""
+    scs = []
+
+    def add(kind, auto, retry=0, pom="async", dirty=True, answer=""):
+        scs.append({"shutdown": "%s/%s/auto=%d/retry=%d/pom=%s/dirty=%d" % (kind, answer or "-", auto, retry, pom, dirty),
+                    "kind": kind, "auto": bool(auto), "retry": retry, "pom": pom, "dirty": bool(dirty), "answer": answer})
+    for auto in (1, 0):
+        for pom in ("async", "close"):
+            for dirty in (1, 0):
+                add("idle", auto, 1, pom, dirty)
+            add("midreq", auto, 1, pom)
+            add("twice", auto, 0, pom)
+        for retry in (0, 3):
+            for answer in ("redispatch", "load", "unknown"):
+                add("retriable", auto, retry, "async", 1, answer)
+            add("unreachable", auto, retry)
+            add("race", auto, retry)
+        add("silent", auto, 3 if auto else 0)
+        add("retriable", auto, 3, "close", 1, "redispatch")
+    add("silent", 1, 0)
+    add("pomclose", 1, 1, "close", 1)
+    add("pomclose", 1, 1, "close", 0)
+    return scs
+
+
+def shutdown_family(ctx):
+    """for C12 (shutdown always completes): the shutdown corpus on the real offsetManager, judged by
+    spec/OffsetManagerTrace.tla. Returns (violations restricted to the hang / panic / errors-channel clauses with
+    their features, stats dict, trace path)."""
+    scs = shutdown_scenarios()
+    cases = os.path.join(ctx.scratch, "c06_shutdown_cases.ndjson")
+    with open(cases, "w") as f:
+        for sc in scs:
+            f.write(json.dumps(sc, separators=(",", ":")) + "\n")
+    rc, out, trace, sums = ctx.go_test_parallel("^TestVerifOffsetManager$", cases, nproc=6, timeout=300, name="omsd", only=ONLY)
+    crashed = []
+    if rc != 0:
+        if "[build failed]" in out or "[setup failed]" in out:
+            ctx.need_go(rc, out, "offset manager shutdown family")
+        crashed = vlib.crash_violations(out)
+        if not crashed:   # None (harness bug) or no panic found
+            ctx.need_go(rc, out, "offset manager shutdown family")
+        for v in crashed:
+            v["clause"] = "close_panic"
+            v["features"]["event"] = "process crashed"
+    if not trace or not os.path.exists(trace):
+        raise vlib.Inconclusive("shutdown family produced no trace")
+    fails = [h for s in sums for h in s.get("setup_failures", [])]
+    if fails:
+        raise vlib.Inconclusive("shutdown scenario setup failed: %s" % fails[:2])
+    executed = sum(s.get("cases", {}).get("shutdown", 0) for s in sums)
+    if executed != len(scs) and not crashed:
+        raise vlib.Inconclusive("harness executed %d of %d shutdown scenarios" % (executed, len(scs)))
+    rs = ctx.tlc_trace("OffsetManagerTrace", "OffsetManagerTrace.cfg", trace, shards=2, timeout=300, name="omsdtrace")
+    allv, stats = [], {}
+    for r in rs:
+        ctx.need(r, "shutdown trace validation")
+        st = r.printed("STATS")
+        if len(st) != 1 or len(r.printed("VIOL")) != 1:
+            raise vlib.Inconclusive("shutdown trace validation did not reach the end of a shard")
+        for k, v in st[0].items():
+            stats[k] = stats.get(k, 0) + v
+        allv += vlib.trace_viols(r)
+    evs = vlib.read_ndjson(trace)
+    if stats.get("traces", 0) != sum(1 for e in evs if e["ev"] == "reset"):
+        raise vlib.Inconclusive("shutdown trace validation evaluated %d of the recorded executions" % stats.get("traces", 0))
+    bytrace = {}
+    for e in evs:
+        bytrace.setdefault(e["t"], []).append(e)
+    viols = list(crashed)
+    for v in allv:
+        if v["clause"] not in SHUTDOWN_CLAUSES:
+            continue
+        mine = bytrace.get(v["trace"], [])
+        head = mine[0] if mine else {}
+        e = next((x for x in mine if x["i"] == v["index"]), {})
+        v["features"] = {"scenario": head.get("id"), "kind": head.get("kind"), "auto": head.get("auto"), "retry": head.get("retry"),
+                         "pom": head.get("pom"), "event": e.get("ev"), "who": e.get("who"), "p": e.get("p"),
+                         "panic": (e.get("panic") or e.get("msg") or "")[:200], "stack": (e.get("stack") or "")[:600],
+                         "history": [{k: x[k] for k in x if k not in ("t", "stack")} for x in mine
+                                     if x["i"] <= v["index"] and x["ev"] not in ("mark", "resetoff")][-12:]}
+        viols.append(v)
+    out_stats = {"scenarios": len(scs), "executed": executed, "traces": stats.get("traces", 0),
+                 "close_calls": sum(1 for e in evs if e["ev"] == "close_call"),
+                 "close_returns": sum(1 for e in evs if e["ev"] == "close_ret"),
+                 "awaited_calls_returned": stats.get("sd_returns", 0), "hangs": stats.get("sd_hangs", 0),
+                 "panics": stats.get("sd_panics", 0) + len(crashed),
+                 "errors_channels_closed": stats.get("sd_errors_channels_closed", 0),
+                 "commit_requests": stats.get("requests", 0), "commit_requests_not_accepted": stats.get("faulty_requests", 0),
+                 "racing_marks": sum(1 for e in evs if e["ev"] in ("mark", "resetoff")),
+                 "by_kind": {k: sum(1 for sc in scs if sc["kind"] == k) for k in sorted({sc["kind"] for sc in scs})},
+                 "scenario_ids": [sc["shutdown"] for sc in scs]}
+    return viols, out_stats, trace
